@@ -507,7 +507,9 @@ theorem batch_lookup_panic : type_of% @exchangeBatch_rel_findLoop_panic :=
   @exchangeBatch_rel_findLoop_panic
 
 /-- the batch in normal form with `Lock` first (equivalent when the lookup loop succeeds: it
-    neither reads nor writes the lock) -/
+    neither reads nor writes the lock); the targets of `rels` are registered ONCE and
+    unconditionally — also when no table moves — as the Go code does after its planning loop (here
+    written after the move loop, with which the registration commutes) -/
 theorem batch_normal_form (run : ProbeRunner) (fo : FilterObj) (extra : List RelID)
     (add rem : List Comp) (rels : List RelID) (w : World) (hl : w.isLocked = false)
     (hne : (add.isEmpty && rem.isEmpty) = false) {l' : Lock} {b : Nat}
@@ -517,7 +519,7 @@ theorem batch_normal_form (run : ProbeRunner) (fo : FilterObj) (extra : List Rel
     (hfind : findLoopX add rem rels ts (false, []) { w with locks := l' } = .ok (rr, bts) w1)
     (hno : ∀ (evt : Nat), w1.obs.hasObservers evt = false) :
     exchangeBatch run fo extra add rem rels none w =
-      unlock b (bts.foldl (moveStepX rels) w1) :=
+      unlock b (registerW (bts.foldl (moveStepX rels) w1) rels) :=
   exchangeBatch_rel_eq run fo extra add rem rels w hl hne hlk hts hfind hno
 
 /-- **the batch**: see the header -/
